@@ -167,7 +167,59 @@ def _unary_contract(op):
     return c
 
 
+# ---- the conditional operator: one iteration of the climbing loop with operator '?' ------------------
+from pyvc.contract import ObjSpec                    # noqa: E402
+from pyvc.values import Abstract, STR, VAtom, VNone   # noqa: E402
+
+from pyvc.state import HeapObj                        # noqa: E402
+
+
+def _match_type(ex, st, env, node):
+    # this unit: the operator token read is '?'
+    return [(st, st.alloc(HeapObj("inst", cls="Operator", fields={"token": VStr(z3.StringVal("?"))})))]
+
+
+def _match_value(ex, st, env, node):
+    return [(st, VNone())]
+
+
+def _sub_expression(ex, st, env, node):
+    """recursion hypothesis: a nested expression yields some value of one of the two types"""
+    r = NP.fresh(ex.ctx, "subexpr")
+    st.assume(pyint.valid(r))
+    st.ghost["subexprs"] = st.ghost.get("subexprs", ()) + (r,)
+    return [(st, r)]
+
+
+t_ = contract(EE + "expression@loop0#ternary", props=["C02"])
+t_.param("self", ObjSpec("ExpressionEvaluator", {})).param("expr", NP)
+t_.opaque = {"codebasin.preprocessor:Parser.match_type": _match_type,
+             "codebasin.preprocessor:Parser.match_value": _match_value,
+             EE + "expression": _sub_expression}
+t_.may_raise = {"ParseError"}
+
+
+@t_.requires
+def _(A):
+    return [("condition-in-range-of-its-type", pyint.valid(A.expr))]
+
+
+@t_.ensures
+def _(A, R):
+    subs = R.st.ghost.get("subexprs", ())
+    if len(subs) != 2:
+        return [("exactly two sub-expressions are read: the two arms", z3.BoolVal(False))]
+    a, b = subs                      # in source order: the arm after '?', then the arm after ':'
+    U = z3.Or(pyint.unsigned(a), pyint.unsigned(b))
+    chosen = z3.If(pyint.val(A.expr) != 0, pyint.val(a), pyint.val(b))
+    r = R.new.expr
+    return [("type-of-result/?:  (common type of the two arms)", pyint.unsigned(r) == U),
+            ("result-in-range-of-its-type/?:", pyint.valid(r)),
+            ("value==C(?:)  (the selected arm converted to the common type)", pyint.val(r) == _conv(chosen, U))]
+
+
 _OPNAME_U = {"-": "neg", "+": "pos", "!": "not", "~": "compl"}
+UNITS.append(t_.key)
 UNITS.append(EE + "__wrap")
 for _op in BINARY_OPS:
     UNITS.append(_binary_contract(_op).key)
